@@ -51,47 +51,85 @@ func run(spec *rules.PropSpec, tier, repo, verif string, seed int, start time.Ti
 			code = 2
 		}
 	}()
-	m, err := core.Load(repo, nil)
-	if err != nil && os.Getenv("VERIF_LOAD") == "" {
-		// export data unavailable? fall back to type-checking the dependencies from source
-		os.Setenv("VERIF_LOAD", "allsyntax")
-		m, err = core.Load(repo, nil)
-	}
-	if os.Getenv("VERIF_TIMING") != "" {
-		fmt.Fprintf(os.Stderr, "timing: load %.1fs\n", time.Since(start).Seconds())
-	}
-	if err != nil {
-		fmt.Fprintf(os.Stderr, "LOAD-FAILED property=%s %v\n", spec.ID, err)
-		return 2
-	}
-	var gen *core.Module
-	if spec.NeedsGen {
-		gen, err = core.Load(filepath.Join(repo, "cmd", "arcaflow-codegen"), nil)
-		if err != nil {
-			fmt.Fprintf(os.Stderr, "LOAD-FAILED property=%s (codegen) %v\n", spec.ID, err)
-			return 2
-		}
-	}
 	kf, err := core.LoadKnownFindings(filepath.Join(verif, "known_findings.json"))
 	if err != nil {
 		fmt.Fprintf(os.Stderr, "cannot read known_findings.json: %v\n", err)
 		return 2
 	}
+	// build configurations: quick = the host, dependencies from export data; thorough = every target the SDK builds
+	// for in this sandbox, the host one with all dependencies type-checked and SSA-built from source
+	type config struct{ goos, goarch, load string }
+	configs := []config{{"", "", os.Getenv("VERIF_LOAD")}}
+	if tier == "thorough" {
+		configs = []config{{"", "", "allsyntax"}, {"windows", "amd64", ""}, {"darwin", "arm64", ""}, {"linux", "arm64", ""}}
+	}
 	rep := core.NewReport(spec.ID)
-	ctx := &rules.Ctx{M: m, Gen: gen, R: rep, Tier: tier, Prop: spec.ID}
-	for i, rule := range spec.Rules {
-		t0 := time.Now()
-		rule(ctx)
-		if os.Getenv("VERIF_TIMING") != "" {
-			fmt.Fprintf(os.Stderr, "timing: rule#%d %.1fs\n", i, time.Since(t0).Seconds())
+	var names []string
+	nPkgs, nFuncs, nGen := 0, 0, 0
+	for _, cf := range configs {
+		name := "host"
+		if cf.goos != "" {
+			name = cf.goos + "/" + cf.goarch
 		}
+		if cf.load != "" {
+			name += "+" + cf.load
+		}
+		os.Setenv("VERIF_GOOS", cf.goos)
+		os.Setenv("VERIF_GOARCH", cf.goarch)
+		os.Setenv("VERIF_LOAD", cf.load)
+		t0 := time.Now()
+		m, err := core.Load(repo, nil)
+		if err != nil && cf.load == "" {
+			// export data unavailable? fall back to type-checking the dependencies from source
+			os.Setenv("VERIF_LOAD", "allsyntax")
+			name += "+allsyntax(fallback)"
+			m, err = core.Load(repo, nil)
+		}
+		if os.Getenv("VERIF_TIMING") != "" {
+			fmt.Fprintf(os.Stderr, "timing: load %s %.1fs\n", name, time.Since(t0).Seconds())
+		}
+		if err != nil {
+			fmt.Fprintf(os.Stderr, "LOAD-FAILED property=%s config=%s %v\n", spec.ID, name, err)
+			return 2
+		}
+		var gen *core.Module
+		if spec.NeedsGen {
+			gen, err = core.Load(filepath.Join(repo, "cmd", "arcaflow-codegen"), nil)
+			if err != nil {
+				fmt.Fprintf(os.Stderr, "LOAD-FAILED property=%s config=%s (codegen) %v\n", spec.ID, name, err)
+				return 2
+			}
+		}
+		one := core.NewReport(spec.ID)
+		ctx := &rules.Ctx{M: m, Gen: gen, R: one, Tier: tier, Prop: spec.ID}
+		for i, rule := range spec.Rules {
+			t1 := time.Now()
+			rule(ctx)
+			if os.Getenv("VERIF_TIMING") != "" {
+				fmt.Fprintf(os.Stderr, "timing: %s rule#%d %.1fs\n", name, i, time.Since(t1).Seconds())
+			}
+		}
+		one.ApplyFloors()
+		if len(configs) == 1 {
+			rep = one
+		} else {
+			rep.Merge(one, name)
+		}
+		names = append(names, name)
+		nPkgs, nFuncs = len(m.Pkgs), len(m.Funcs)
+		if gen != nil {
+			nGen = len(gen.Funcs)
+		}
+		m, gen, ctx = nil, nil, nil
+		debug.FreeOSMemory()
 	}
 	extra := map[string]any{
-		"packages_loaded":    len(m.Pkgs),
-		"functions_analysed": len(m.Funcs),
+		"packages_loaded":         nPkgs,
+		"functions_analysed":      nFuncs,
+		"configurations_analysed": names,
 	}
-	if gen != nil {
-		extra["codegen_functions_analysed"] = len(gen.Funcs)
+	if nGen > 0 {
+		extra["codegen_functions_analysed"] = nGen
 	}
 	return rep.Finish(verif, tier, seed, time.Since(start).Seconds(), spec.Explanation, spec.Assumptions, rules.TrustedBase(), kf, extra)
 }
